@@ -12,6 +12,9 @@
   C07.ONE    the shared resampler's resample() loop is started only from the actor's supervising loop,
              only when the previous task is absent or finished, and the task variable is only reset
              when the task is known finished (two loops on one resampler repeat/skip timestamps).
+  C07.CONF   every construction site of Resampler in the package passes the configuration its owner
+             was handed (a parameter, or an attribute only ever assigned from a constructor
+             parameter): the grid is the caller's align_to + k * period.
 """
 from __future__ import annotations
 
@@ -186,6 +189,49 @@ def _subst_zero(p: Poly, atom: str) -> Poly:
             continue
         out[m] = c
     return Poly(out)
+
+
+def check_conf(run: Run, prog: Program) -> None:
+    """Every Resampler in the package is built from the configuration its owner was handed, unchanged:
+    the grid a series lands on is the caller's align_to + k * period, not one the owner substitutes."""
+    from ..engine.resolver import ClassInfo
+    from ..engine.terms import single_defs
+
+    n = 0
+    for fn in prog.all_functions():
+        if "Resampler" not in fn.module.source and "_resampling" not in fn.module.source:
+            continue    # the class cannot be named in a module that mentions neither it nor its module
+        for call in ast.walk(fn.node):
+            if not isinstance(call, ast.Call):
+                continue
+            if not any(isinstance(t, ClassInfo) and t.qual == RES for t in prog.resolve_call(fn, call)):
+                continue
+            n += 1
+            run.analysed(fn.qual)
+            arg = positional(call, ["config"]).get("config")
+            defs = single_defs(fn.node)
+            seen = 0
+            while isinstance(arg, ast.Name) and arg.id in defs and arg.id not in fn.params and seen < 5:
+                arg, seen = defs[arg.id], seen + 1
+            stores = sum(1 for x in ast.walk(fn.node) if isinstance(x, ast.Name) and isinstance(x.ctx, ast.Store)
+                         and isinstance(arg, ast.Name) and x.id == arg.id)
+            ok = isinstance(arg, ast.Name) and arg.id in fn.params and stores == 0
+            if not ok and arg is not None and fn.cls is not None and u(arg).startswith("self.") and u(arg).count(".") == 1:
+                # an attribute that only ever holds a constructor parameter
+                writes = [s for m in fn.cls.methods.values() for s in body_walk(m.node)
+                          if isinstance(s, (ast.Assign, ast.AnnAssign)) and s.value is not None
+                          and u(s.targets[0] if isinstance(s, ast.Assign) else s.target) == u(arg)]
+                ctor = fn.cls.methods.get("__init__")
+                ok = bool(writes) and ctor is not None and all(
+                    isinstance(w.value, ast.Name) and w.value.id in ctor.params for w in writes) and all(
+                    w in list(body_walk(ctor.node)) for w in writes)
+            run.check(ok, "C07.CONF", fn.qual, call,
+                      "the resampler is not built from the configuration its owner was given "
+                      f"(found {u(arg)[:100] if arg is not None else 'no argument'}): the emitted timestamps can lie on "
+                      "another grid than the caller's align_to + k * period",
+                      node=call, file=fn.file, instance=f"{fn.qual}: Resampler(<configuration parameter>)")
+    if not n:
+        raise AnalysisError("no construction site of Resampler found")
 
 
 def _timer_loops(node: ast.AST) -> list[Any]:
@@ -440,6 +486,8 @@ def check_same(run: Run, prog: Program) -> None:
 
 
 CONTROLS = [
+    ("moving window substitutes its own alignment", "timeseries._moving_window", "Resampler(resampler_config)",
+     "Resampler(dataclasses.replace(resampler_config, align_to=align_to))", "C07.CONF"),
     ("clock in the zone of align_to", MOD, "now = datetime.now(timezone.utc)\n        period = self._config.resampling_period",
      "now = datetime.now(self._config.align_to.tzinfo if self._config.align_to else timezone.utc)\n        period = self._config.resampling_period",
      "C07.ALIGN"),
@@ -464,6 +512,7 @@ def run_rules(run: Run, prog: Program) -> None:
     check_step(run, prog)
     check_same(run, prog)
     check_one(run, prog)
+    check_conf(run, prog)
 
 
 def check(run: Run, prog: Program, tier: str) -> str:
